@@ -73,7 +73,7 @@ class DomainS(metaclass = Singleton):
                 newargs = {'length': length}
             except SingletonError:
                 pass
-        elif length and name[-1] != '*':
+        elif length is not None and name[-1] != '*':
             # Forbid initialization of a non-complementary domain with conflicting length.
             clength = length
             try:
@@ -82,7 +82,7 @@ class DomainS(metaclass = Singleton):
             except SingletonError:
                 if clength != length:
                     raise SingletonError(f'Duplicate Singleton {cls.__name__}: name ({name}) has the wrong length {length} vs {clength}!')
-        elif length and name[-1] == '*':
+        elif length is not None and name[-1] == '*':
             # Forbid initialization of a complementary domain with conflicting length.
             try:
                 clength = len(cls(cname))
